@@ -40,7 +40,17 @@ QCombined ==
   /\ ev.combined = Combine(bugs[comments[ev.comment].bug], comments[ev.comment].op)
   /\ UNCHANGED <<bugs, idents, comments>>
 
-Next == Pop \/ QEntity \/ QComment \/ QCombined
+(* the command line's resolution, with and without a selected bug *)
+QSelected ==
+  /\ IsEv("ResolveSelected")
+  /\ LET r == ResolveSelected(bugs, ev.prefix, ev.hasarg, ev.sel) IN
+     /\ ev.outcome = r.outcome
+     /\ AsSet(ev.matching) = r.matching
+     /\ ev.used = r.used                         \* the argument was consumed iff it designated the entity
+     /\ (ev.sel = -1 /\ r.outcome = "novalid") => ev.cleared      \* a selection that no longer exists is forgotten
+  /\ UNCHANGED <<bugs, idents, comments>>
+
+Next == Pop \/ QEntity \/ QComment \/ QCombined \/ QSelected
 Spec == Init /\ [][Next]_<<l, bugs, idents, comments>>
 TraceAccepted == TLCGet("stats").diameter - 1 = Len(Trace)
 =============================================================================
